@@ -77,7 +77,7 @@ class Recorder(object):
         case: replayable concrete input/history; detail: what the oracle saw."""
         key = (cause, row)
         self.violation_counts[key] = self.violation_counts.get(key, 0) + 1
-        if self.violation_counts[key] == 1 and len(self.violations) < MAX_VIOL_KEYS:
+        if self.violation_counts[key] <= (1 if row is not None else 4) and len(self.violations) < MAX_VIOL_KEYS:
             self.violations.append({'cause': cause, 'row': row, 'case': case, 'detail': detail})
 
     def inconclusive_reason(self, reason):
@@ -284,6 +284,9 @@ def main(argv=None):
                 ex.setdefault(c, []).append(r)
             for c, n in cc.most_common():
                 print('  cause %-60s obs=%d rows=%d e.g. %s' % (c, n, len(ex[c]), sorted(map(str, ex[c]))[:6]))
+                for v in [v for v in m['violations'] if v['cause'] == c][:int(os.environ.get('VERIF_VERBOSE'))]:
+                    print('      case=%s detail=%s' % (json.dumps(v['case'], default=str)[:260],
+                                                      json.dumps(v['detail'], default=str)[:200]))
         if unknown:
             total = sum(m['violation_counts'].get((v['cause'], v.get('row')), 1) for v in unknown)
             for v, path in zip(unknown, replay_paths):
